@@ -314,7 +314,18 @@ func runC02(a Args) tr.Summary {
 			if fam == "C" && a.Tier != "thorough" && n > 2 {
 				continue // containers shared between nodes: two nodes in the quick tier
 			}
-			gs := c02Graphs(n, maxE, fam)
+			me := maxE
+			if a.Tier == "thorough" && fam != "" {
+				// the second and third family in the thorough tier: 3 nodes (4 / 3 edges); 4 nodes x 4 edges
+				// is several million graphs each
+				if n > 3 {
+					continue
+				}
+				if me = 4; fam == "C" {
+					me = 3
+				}
+			}
+			gs := c02Graphs(n, me, fam)
 			sort.Slice(gs, func(i, j int) bool { return len(gs[i]) < len(gs[j]) })
 			for _, edges := range gs {
 				for _, dest := range []string{"typed", "iface"} {
